@@ -27,7 +27,7 @@ def base_messages(w, phase):
     hdr = lambda i, rsp=0: M.MessageHeader(int(w.net.clock()), i, rsp, 777).serialize()   # noqa
     msgs = []
     if phase != 'after-greeting' and phase != 'awaiting-inventory':
-        msgs.append(('hello', M.HelloMessage([M.SupportedVersion(0)], IPv6Address('::ffff:10.0.0.1'), 2412, IPv6Address(0), 2413, 424242, b'vf attacker')))
+        msgs.append(('hello', M.HelloMessage([M.SupportedVersion(0)], IPv6Address('::ffff:10.0.0.1'), 2412, IPv6Address(0), 2413, 424242, b'vf attacker \xff\xfe\xc0\x80')))      # (the user agent is a byte string; this one is not valid UTF-8)
     msgs += [
         ('getblocks', M.GetBlocksMessage([H.bid, w.W['base_nodes'][0].bid])),
         ('inventory', M.InventoryMessage([M.InventoryItem(M.DATA_BLOCK, enc.sha256d(b'unknown block'))])),
@@ -70,7 +70,7 @@ class AttackWorld(c09.World):
         # attacker connection
         self.X = simnet.Remote(self.net, self.node, host='5.5.5.5' if same_host else '8.8.8.8')
         if phase in ('after-greeting', 'awaiting-inventory'):
-            self.X.hello(nonce=999)
+            self.X.hello(nonce=999, agent=b'vf \xff\xc0 attacker')
             self.node.tick()
         if phase == 'awaiting-inventory':
             xpeer = self.node.peer_for(self.X.node_sock)
